@@ -709,25 +709,23 @@ func (s *Session) SetUnmarshaller(unmarshaller Unmarshaller) {
 }
 
 func (s *Session) Stop() (err error) {
-	defer func() {
-		s.eventHandler.Clean()
-	}()
-
-	err = s.Logout()
-	if err != nil {
-		return fmt.Errorf("sendWithErrorCheck logout request: %w", err)
-	}
-
 	delayTimer := time.AfterFunc(s.LogonSettings.CloseTimeout, func() {
 		s.cancel()
 	})
 
+	// The handler is registered before the Logout is sent (the answer may come back at once)
+	// and the event handlers are left in place: the answer is delivered through them.
 	s.OnChangeState(utils.EventLogout, func() bool {
 		delayTimer.Stop()
 		s.cancel()
 
 		return true
 	})
+
+	err = s.Logout()
+	if err != nil {
+		return fmt.Errorf("sendWithErrorCheck logout request: %w", err)
+	}
 
 	return nil
 }
